@@ -367,4 +367,17 @@ example :
     (gameRun n { name := "a", requiresScan := true } [[.folder "a" .scan], [], [.fsDeleteFolder "a"], [.fsRestoreFolder "a"]]).2.2
       = [.none, .corrupt, .none, .corrupt] := by decide
 
+/-! non-vacuity for the repaired case (F-C14-4): folder `d1` was seen CORRUPT, is deleted, a new `d1` is created: the observer shows
+the new folder's own visible health (NONE), and from then on caches for the new identity -/
+example :
+    let F : Folder := { name := "d1", deleted := false, actual := .good, visible := .corrupt, scanDur := 1, scanCd := 0, restoreDur := 1,
+                        restoreCd := 0, files := [] }
+    let d : DNode := { n := { power := .on, startDur := 0, startCd := 0, shutDur := 0, shutCd := 0, resetting := false, scanDur := 3,
+                              scanCd := 0, sws := [], folders := [F] }, defScan := none, defRestore := none }
+    let o : FolderObs := { name := "d1", requiresScan := true, cached := .corrupt, cachedId := some 0 }
+    let d1 := (d.apply (.base (.fsDeleteFolder "d1"))).apply (.fsCreateFolder "d1")
+    (o.observe d1.n.pre.tick).1 = .none ∧ (o.observe d1.n.pre.tick).2.cachedId = some 1 ∧
+      -- the old code (cache by name only) would have shown CORRUPT: the flag of the new folder is clear
+      (d1.n.pre.tick.liveFolder? "d1").map (·.scanned) = some false := by decide
+
 end Primaite.Health
